@@ -474,7 +474,7 @@ def build_archives(root):
     return out
 
 
-def describe(a, kind, password, mb=None):
+def describe(a, kind, password, mb=None, fix=(0, 0)):
     """the abstract archive of the model for archive `a` opened as `kind`.  Header values (ids, sizes, digests,
     packed sizes) are read through py7zr's parser; the decoded stream of a folder is what a freshly created
     SevenZipDecompressor delivers (the definition of fo_stream); for intact archives it is cross-checked against the
@@ -527,7 +527,8 @@ def describe(a, kind, password, mb=None):
         enc = any(py7zr.compressor.SupportedMethods.needs_password(fo.coders) for fo in folders)
         ah = z.afterheader
     kcode = {"path": 0, "stream": 1, "fileobj": 2}[kind]
-    tree = [files, fos, ah, kcode, 1 if password is not None else 0, 1 if enc else 0, mb or get_memory_limit()]
+    tree = [files, fos, ah, kcode, 1 if password is not None else 0, 1 if enc else 0, mb or get_memory_limit(),
+            fix[0], fix[1]]
     return tree, names
 
 
@@ -691,13 +692,13 @@ def canon_model_events(evs):
 class Variant:
     """one archive opened one way"""
 
-    def __init__(self, a, kind, password="__own__", mb=None, tag=""):
+    def __init__(self, a, kind, password="__own__", mb=None, tag="", fix=(0, 0)):
         self.a = a
         self.kind = kind
         self.password = a["password"] if password == "__own__" else password
         self.mb = mb
         self.name = "%s/%s%s" % (a["name"], kind, tag)
-        self.tree, self.names = describe(a, kind, self.password, mb)
+        self.tree, self.names = describe(a, kind, self.password, mb, fix)
         ids = {n: i for i, n in self.names.items()}
         data_members = [n for n, d in a["members"].items() if d]
         # extract(T): the second data member of the last folder that has two, else the only one -- leaves the folder's
@@ -886,7 +887,11 @@ def work_variant_round(args):
                 for x in o["ops"]:
                     key = x["r"][0] if x["r"][0] != "err" else "err:" + x["r"][1]
                     dist[key] = dist.get(key, 0) + 1
-        return vidx, finds, nops, hang, dist
+        smp = None
+        if jobs and obs and obs[-1] and obs[-1].get("ops"):
+            smp = {"variant": v.name, "sequence": jobs[-1][0], "ending": jobs[-1][1],
+                   "results": [_short(x["r"])[:120] for x in obs[-1]["ops"]]}
+        return vidx, finds, nops, hang, dist, smp
     finally:
         model.close()
 
@@ -894,17 +899,28 @@ def work_variant_round(args):
 _VARIANTS = []
 
 
-def make_variants(archs, tier):
+def make_variants(archs, tier, fix=(0, 0)):
     vs = []
     for a in archs:
         for kind in ("path", "stream", "fileobj"):
-            vs.append(Variant(a, kind))
+            vs.append(Variant(a, kind, fix=fix))
     by = {a["name"]: a for a in archs}
-    vs.append(Variant(by["E"], "stream", password=None, tag="+nopw"))       # encrypted, no password given
-    vs.append(Variant(by["M"], "stream", password="needless", tag="+pw"))   # plain, a password given: not parallel
-    vs.append(Variant(by["S"], "path", mb=7, tag="+mb7"))                   # decoding in chunks of 7 bytes
-    vs.append(Variant(by["M"], "path", mb=7, tag="+mb7"))
+    vs.append(Variant(by["E"], "stream", password=None, tag="+nopw", fix=fix))       # encrypted, no password given
+    vs.append(Variant(by["M"], "stream", password="needless", tag="+pw", fix=fix))   # plain, a password given: not parallel
+    vs.append(Variant(by["S"], "path", mb=7, tag="+mb7", fix=fix))                   # decoding in chunks of 7 bytes
+    vs.append(Variant(by["M"], "path", mb=7, tag="+mb7", fix=fix))
     return vs
+
+
+def probe_repairs(archs, root):
+    """which of the two proposed repairs the implementation under test has (selects the model's switches; the
+    property is judged without the model either way)"""
+    by = {a["name"]: a for a in archs}
+    o1 = run_jobs(Variant(by["S"], "path"), [[["xall_f", "testzip"], "close"]], root)[0]
+    o2 = run_jobs(Variant(by["M"], "stream"), [[["testzip"], "close"]], root)[0]
+    fixz = int(bool(o1 and len(o1.get("ops", [])) == 2 and o1["ops"][1]["r"] == ["ok", ["zip", None]]))
+    fixp = int(bool(o2 and len(o2.get("ops", [])) == 1 and o2["ops"][0]["r"] == ["ok", ["zip", None]]))
+    return fixz, fixp
 
 
 def chunks(xs, n):
@@ -975,7 +991,9 @@ def run(ctx):
     t0 = time.time()
     try:
         archs = build_archives(root)
-        _VARIANTS = make_variants(archs, tier)
+        fix = probe_repairs(archs, root)
+        rep.extra["repairs_detected"] = {"testzip_resets_decoders": bool(fix[0]), "testzip_parallel_needs_path": bool(fix[1])}
+        _VARIANTS = make_variants(archs, tier, fix)
         if ctx["model"] is None:
             rep.violation("the extracted model is not available", {"kind": "no-model"}, concrete=False,
                           match_keys={"kind": "no-model"})
@@ -1031,8 +1049,10 @@ def run(ctx):
                     break
                 order = sorted(range(len(tasks)), key=lambda i: -len(tasks[i][1]))
                 results = pool.map(work_variant_round, [tasks[i] for i in order], chunksize=1)
-                for oi, (vidx, finds, nops, hang, d) in zip(order, results):
+                for oi, (vidx, finds, nops, hang, d, smp) in zip(order, results):
                     part = meta[oi]
+                    if smp and length >= 3 and any(o in DECODING for o in smp["sequence"]):
+                        rep.sample(smp)
                     findings += finds
                     total_ops += nops
                     for k, n in d.items():
@@ -1057,7 +1077,7 @@ def run(ctx):
                     allseqs += seqs
                 jobs = [[s, e] for s in allseqs for e in ENDINGS]
                 parts = chunks(jobs, nproc)
-                for (vi, finds, nops, hang, d), part in zip(pool.map(work_variant_round, [(vidx, p, root, baselines[vidx]) for p in parts]), parts):
+                for (vi, finds, nops, hang, d, smp), part in zip(pool.map(work_variant_round, [(vidx, p, root, baselines[vidx]) for p in parts]), parts):
                     findings += finds
                     total_ops += nops
                     for s, e in part:
@@ -1100,7 +1120,6 @@ def run(ctx):
             ending = what.split(" [", 1)[1].split("]")[0] if " [" in what else "close"
             rep.violation(what, {"kind": mk["kind"], "variant": vname, "seq": seqs.split(" "), "ending": ending},
                           concrete=concrete, match_keys=mk)
-        rep.sample({"variant": "S/path", "sequence": ["xall_f", "reset", "ext_T", "test", "testzip"], "ending": "with"})
     finally:
         shutil.rmtree(root, ignore_errors=True)
 
